@@ -1,5 +1,7 @@
 import Driver.Proto
 import Gosyn.Model.Climb
+import Gosyn.Model.Dir
+import Lean.Data.Json
 /-! `driver model`: the model's answer for one harness case line, in the harness's output format. -/
 open Gosyn.Model Gosyn.Gen Gosyn.Ast
 
@@ -28,11 +30,6 @@ def repeatEntry {α} (entry : Tbl → P α) (toJ : α → J) (k : Nat) (src : St
     outs := outs.push (outcomeOf toJ r)
     if !(r matches .ok _) then break
   return "[" ++ ",".intercalate outs.toList ++ "]"
-
-def stripBOM (s : String) : String :=
-  match s.toList with
-  | c :: cs => if c.toNat = 0xFEFF then String.ofList cs else s
-  | [] => s
 
 def okClass {α} (r : Except PErr α) : String :=
   match r with
@@ -64,8 +61,44 @@ def climbCase (s : String) : String :=
       let r := climbAll Operator.prec a0 ps
       "{\"shape\":" ++ jsonStr (shapeOf r.1).toList ++ ",\"left\":" ++ toString r.2.length ++ "}"
 
+/-- directory case (C18): the case text is a JSON array of entries, as the harness reads it -/
+def dirCase (txt : String) : String :=
+  match Lean.Json.parse txt with
+  | .error _ => "{\"bad-input\":\"json\"}"
+  | .ok j =>
+    match j.getArr? with
+    | .error _ => "{\"bad-input\":\"json\"}"
+    | .ok arr =>
+      let missing := arr.any fun e => (e.getObjVal? "missing").isOk
+      let entries : List DirEntry := arr.toList.filterMap fun e =>
+        match e.getObjValAs? String "name", e.getObjValAs? String "kind" with
+        | .ok name, .ok kind =>
+          if kind = "file" then
+            let hx := (e.getObjValAs? String "hex").toOption.getD ""
+            some { name, kind := .file (unhexBytes hx) }
+          else if kind = "symlink" then some { name, kind := .dangling }
+          else if kind = "dir" then some { name, kind := .dir }
+          else none
+        | _, _ => none
+      match parseDir "<dir>" (if missing then none else some entries) with
+      | .error .io => "{\"err\":{\"kind\":\"IO\"}}"
+      | .error (.parse (.panic _)) => "{\"panic\":true}"
+      | .error (.parse e) => "{\"err\":" ++ errJson e ++ "}"
+      | .ok m =>
+        let pkgs := m.map fun ((name, files) : String × List File) =>
+          let fs := files.map fun (f : File) => "{\"path\":" ++ jsonStr f.path.toList ++ ",\"tree\":" ++ jText (File.toJson f) ++ "}"
+          let fs := fs.mergeSort (fun a b => a ≤ b)
+          (name, "{\"name\":" ++ jsonStr name.toList ++ ",\"path\":\"<dir>\",\"files\":[" ++ ",".intercalate fs ++ "]}")
+        let pkgs := pkgs.mergeSort (fun a b => a.1 ≤ b.1)
+        "{\"ok\":[" ++ ",".intercalate (pkgs.map (·.2)) ++ "]}"
+
 def modelCase (mode : String) (hex : String) : String :=
   let bytes := unhexBytes hex
+  if mode = "dir" then
+    match String.fromUTF8? (unhexBytes hex) with
+    | none => "{\"bad-input\":\"not utf-8\"}"
+    | some t => dirCase t
+  else
   if mode = "disk" then
     match String.fromUTF8? bytes with
     | none => "{\"err\":{\"kind\":\"IO\"}}"
